@@ -49,10 +49,13 @@ Proof.
 Qed.
 
 (* d/dt of the objective with entry (j, r) of the k-th factor set to t, at the current entry value,
-   is entry (j, r) of the k-th matrix returned by eval_G *)
-Theorem eval_gradient :
+   is entry (j, r) of the k-th matrix returned by eval_G.
+   Most general form: the loss only has to be differentiable (with derivative g) at the model values
+   actually attained, entry by entry. *)
+Theorem eval_gradient_pointwise :
   forall (f g : R -> R -> R) (K : ktensor R) (X : dense R) (w : option (dense R)) (k j r : nat),
-  (forall x m, is_derive (fun m => f x m) m (g x m)) ->
+  (forall i, inb (dshape X) i = true ->
+     is_derive (fun m => f (den_dense 0 X i) m) (dkR K i) (g (den_dense 0 X i) (dkR K i))) ->
   (forall q, (q < krank K)%nat -> nth q (kweights K) 0 = 1) ->
   wf_k K ->
   (k < length (kfactors K))%nat ->
@@ -116,15 +119,51 @@ Proof.
     destruct (Nat.eqb (nth k i 0%nat) j && Nat.eqb q r)%bool.
     - auto_derive; [exact I | ring].
     - auto_derive; [exact I | ring]. }
-  rewrite <- HK0 at 2.
   apply (is_derive_ext (fun t => wget 0 1 w i *
            f (den_dense 0 X i) (dkR (kset R K k (mset A j r t)) i))).
-  { intros t. ring. }
+  { intros t. apply Rmult_comm. }
   apply is_derive_scal.
   apply (is_derive_comp (fun m => f (den_dense 0 X i) m)
            (fun t => dkR (kset R K k (mset A j r t)) i) (mgR A j r)).
-  - apply Hfg.
+  - cbv beta. rewrite HK0. apply Hfg. exact Hi.
   - exact Hm.
+Qed.
+
+(* the matrices returned by fg.evaluate are the exact partial derivatives of the objective *)
+Theorem eval_gradient :
+  forall (f g : R -> R -> R) (K : ktensor R) (X : dense R) (w : option (dense R)) (k j r : nat),
+  (forall x m, is_derive (fun m => f x m) m (g x m)) ->
+  (forall q, (q < krank K)%nat -> nth q (kweights K) 0 = 1) ->
+  wf_k K ->
+  (k < length (kfactors K))%nat ->
+  (j < nrows (nth k (kfactors K) []))%nat ->
+  (r < krank K)%nat ->
+  dshape X = kshape K ->
+  is_derive (fun t => eval_F 0 1 Rplus Rmult f (kset R K k (mset (nth k (kfactors K) []) j r t)) X w)
+            (mgR (nth k (kfactors K) []) j r)
+            (mgR (nth k (eval_G 0 1 Rplus Rmult g K X w) []) j r).
+Proof.
+  intros f g K X w k j r Hfg. apply eval_gradient_pointwise. intros i _. apply Hfg.
+Qed.
+
+(* domain-restricted version: g is the derivative of f only for model values m >= lb (the lower bound
+   fg_setup attaches to the objective), and the current model respects the bound on the data's shape *)
+Theorem eval_gradient_lb :
+  forall (lb : R) (f g : R -> R -> R) (K : ktensor R) (X : dense R) (w : option (dense R)) (k j r : nat),
+  (forall x m, lb <= m -> is_derive (fun m => f x m) m (g x m)) ->
+  (forall i, inb (kshape K) i = true -> lb <= dkR K i) ->
+  (forall q, (q < krank K)%nat -> nth q (kweights K) 0 = 1) ->
+  wf_k K ->
+  (k < length (kfactors K))%nat ->
+  (j < nrows (nth k (kfactors K) []))%nat ->
+  (r < krank K)%nat ->
+  dshape X = kshape K ->
+  is_derive (fun t => eval_F 0 1 Rplus Rmult f (kset R K k (mset (nth k (kfactors K) []) j r t)) X w)
+            (mgR (nth k (kfactors K) []) j r)
+            (mgR (nth k (eval_G 0 1 Rplus Rmult g K X w) []) j r).
+Proof.
+  intros lb f g K X w k j r Hfg Hlb Hw Hwf Hk Hj Hr Hs.
+  apply eval_gradient_pointwise; auto. intros i Hi. apply Hfg. apply Hlb. now rewrite <- Hs.
 Qed.
 
 End Grad.
